@@ -491,6 +491,14 @@ def record_deep(task):
                   "maf": rng.choice([[0, 1], [0, 1], [1, 10], _frac(n, t)]), "mad": rng.choice([0, 0, popd, popd + 1])}
             if c == 0:
                 th = {"imaf": [1, 10], "imad": 3, "mind": 1, "maf": [0, 1], "mad": 0}
+            if c == 1:
+                # --ind-maf exactly on one sample's frequency k/n, with --min-ind set to the number of samples that reach it:
+                # the allele is listed iff that sample counts as reaching its own frequency (prefer pairs for which
+                # k * (1/n) differs from k/n in double arithmetic)
+                cand = [x for x in table if x[3] * (1.0 / x[4]) < x[3] / x[4]] or table
+                j, k, b, n, t = rng.choice(cand)
+                reach = sum(1 for x in table if x[0] == j and x[2] == b and Fraction(x[3], x[4]) >= Fraction(n, t))
+                th = {"imaf": _frac(n, t), "imad": 0, "mind": reach, "maf": [0, 1], "mad": 0}
             fc = {"minq": 20, "kd": False, "kq": False, "ks": False}
             tid += 1
             out.append(_trace(tid, g.contig, start, stop, fasta, paths, fc, th, g.ref[start:stop]))
